@@ -918,6 +918,36 @@ fn variants_ext(t: &mut Tape, ctx: &mut Ctx) -> R {
 }
 
 /// raw bytes (fuzz entry and replay format): the tape is the PSET wire string
+// ---- counts at the decoder's limit and encodings beyond 64 KiB (deterministic) ----------------------
+
+/// PSETs with 9 999 / 10 000 input or output maps (the decoder's cap admits exactly 10 000) and PSETs whose
+/// serialization exceeds 64 KiB and 128 KiB, through the same hop oracle as every generated PSET.
+fn count_limits(idx: u64, _seed: u64, ctx: &mut Ctx) -> R {
+    use elements::hashes::Hash as _;
+    const SHAPES: [(usize, usize); 8] = [(9_999, 1), (10_000, 1), (1, 9_999), (1, 10_000), (1_523, 1), (3_000, 2), (2, 1_400), (700, 700)];
+    let (n_in, n_out) = SHAPES[idx as usize % SHAPES.len()];
+    let mut p = Pset::new_v2();
+    for k in 0..n_in {
+        let mut h = [0u8; 32];
+        h[..8].copy_from_slice(&(k as u64 + 1).to_le_bytes());
+        p.add_input(elements::pset::Input::from_prevout(elements::OutPoint::new(elements::Txid::from_byte_array(h), (k % 7) as u32)));
+    }
+    let asset = elements::AssetId::from_byte_array([0x23; 32]);
+    for k in 0..n_out {
+        let script = elements::Script::from(vec![0x51, (k % 251) as u8]);
+        p.add_output(elements::pset::Output::new_explicit(script, 1 + k as u64, asset, None));
+    }
+    let ex = Extras { elip: vec![], elip_tok: vec![], abfs: vec![] };
+    let (bytes, text) = hop_oracle(&p, &ex, ctx)?;
+    ctx.class(&format!("count-limits:{}-inputs:{}-outputs", n_in, n_out));
+    ctx.class(if bytes.len() > 131_072 { "encoding:longer-than-128KiB" } else if bytes.len() > 65_536 { "encoding:longer-than-64KiB" } else { "encoding:up-to-64KiB" });
+    ctx.nontrivial(&(n_in, n_out));
+    if ctx.wants_sample("count-limits") {
+        ctx.sample("count-limits", || json!({"inputs": n_in, "outputs": n_out, "serialized_bytes": bytes.len(), "base64_chars": text.len()}));
+    }
+    Ok(())
+}
+
 fn raw_bytes(t: &mut Tape, ctx: &mut Ctx) -> R {
     let n = t.remaining();
     let mut b = t.bytes(n);
@@ -1061,6 +1091,7 @@ pub fn property() -> Property {
             Sub { name: "raw_bytes", kind: Kind::Tape { max_len: 400, quick: 160_000, thorough: 1_600_000, f: raw_bytes } },
             Sub { name: "roundtrip_ext", kind: Kind::Tape { max_len: 6000, quick: 24_000, thorough: 800_000, f: roundtrip_ext } },
             Sub { name: "variants_ext", kind: Kind::Tape { max_len: 6000, quick: 120_000, thorough: 2_400_000, f: variants_ext } },
+            Sub { name: "count_limits", kind: Kind::Index { count: |_| 8, exhaustive: true, f: count_limits } },
         ],
         known: vec![Known { key: KF_TAPTREE, what: "the tap-tree codec reverses the leaf order on every hop: encode(decode(b)) alternates between two byte strings", repro: repro_taptree }],
     }
